@@ -19,7 +19,8 @@
                               RamanFiber is the last element of its span
      a RamanFiber carries two INPUTS: its gain estimate at the reference power and at the designed span input power *)
 From Coq Require Import QArith Qminmax Lia.
-From Verif Require Import Prelude Model.Select Model.PowerDesign Proofs.Select Proofs.PowerDesign.
+From Verif Require Import Prelude Model.Select Model.PowerDesign Proofs.Select Proofs.PowerDesign
+  Gen.PowerDesignGen Proofs.PowerDesignGen.
 Open Scope Q_scope.
 
 (* ---- rounding to the step: round2float returns k * s for the integer k nearest to x / s, s = round(step, 1) *)
@@ -285,3 +286,78 @@ Example ex_mb :
   | Err _ => False
   end.
 Proof. vm_compute. repeat split; try discriminate. Qed.
+
+(* ---- translator tie: the definitions translated from gnpy/core/utils.py and gnpy/core/network.py on every run
+   (harness/pygen_c09.py -> Gen/PowerDesignGen.v) agree with the hand-written model.  req4: both fail with the same
+   error, or give (gain target, power target, dp, voa) equal as rationals (the source adds the zero SRS deviation). ---- *)
+Theorem C09_source_round2float : forall x step, g_round2float x step = round2float x step.
+Proof. exact gen_round2float. Qed.
+Print Assumptions C09_source_round2float.
+
+Theorem C09_source_target_power : forall c loss lo hi step,
+  nth_q (c_dpr c) 0 = Some lo -> nth_q (c_dpr c) 1 = Some hi -> nth_q (c_dpr c) 2 = Some step ->
+  dp_rule c loss = Ok (g_dp_rule c loss lo hi step).
+Proof. exact gen_dp_rule. Qed.
+Print Assumptions C09_source_target_power.
+
+Theorem C09_source_span_loss : forall cached before node after,
+  live_loss cached before node after
+  = g_span_ret ((if is_ff node then eloss node else 0) + qsum (map eloss (walk_gen before node))
+                + qsum (map eloss (walk_gen after node)))
+               (rgain cached node + qsum (map (rgain cached) (walk_gen before node))
+                + qsum (map (rgain cached) (walk_gen after node))).
+Proof. exact gen_span_loss. Qed.
+Print Assumptions C09_source_span_loss.
+
+Theorem C09_source_padding_needed : forall c sl, g_pad_needed (c_padding c) sl = pad_needed c sl.
+Proof. exact gen_pad_needed. Qed.
+Print Assumptions C09_source_padding_needed.
+
+Theorem C09_source_padding_recorded : forall c sl, g_pad_dsl_incr (c_padding c) sl = pad_incr c sl.
+Proof. exact gen_pad_incr. Qed.
+Print Assumptions C09_source_padding_recorded.
+
+Theorem C09_source_padding_att_in : forall c f sl seg node att',
+  bump [] (Fib f) (pad_incr c sl) = (seg, node, Some att') -> att' == g_pad_att (f_att f) (c_padding c) sl.
+Proof. exact gen_pad_att. Qed.
+Print Assumptions C09_source_padding_att_in.
+
+Theorem C09_source_targets : forall c pref_total prev_dp prev_voa nl tp a,
+  req4 (g_targets c pref_total prev_dp prev_voa nl tp a) (targets c pref_total prev_dp prev_voa nl tp a).
+Proof. exact gen_targets. Qed.
+Print Assumptions C09_source_targets.
+
+Theorem C09_source_saturation : forall (pm : bool) pmax pref_total prev_dp prev_voa nl g0 dp0,
+  (if pm then g_red_power_mode pmax pref_total dp0
+   else g_red_gain_mode pmax pref_total prev_dp nl prev_voa g0)
+  = imposed_red pm pmax pref_total prev_dp prev_voa nl g0 dp0.
+Proof. exact gen_imposed_red. Qed.
+Print Assumptions C09_source_saturation.
+
+Theorem C09_source_auto_voa : forall c pmax gmax pt gain, g_auto_voa c pmax gmax pt gain = auto_voa c pmax gmax pt gain.
+Proof. exact gen_auto_voa. Qed.
+Print Assumptions C09_source_auto_voa.
+
+Theorem C09_source_start : forall c lib bmin bmax pref_ch pref_total p0 s e chain,
+  design c lib bmin bmax pref_ch pref_total p0 s e chain
+  = design_from c lib bmin bmax pref_total e (start_neigh s) [] (g_start_dp p0 pref_ch) 0 chain.
+Proof. exact gen_start. Qed.
+Print Assumptions C09_source_start.
+
+Theorem C09_source_start_mb : forall c lib groups bis pref_ch p0 s e chain,
+  design_mb c lib groups bis pref_ch p0 s e chain
+  = design_mb_from c lib groups bis e (start_neigh s) [] (map (fun _ => (g_start_dp p0 pref_ch, 0)) bis) chain.
+Proof. exact gen_start_mb. Qed.
+Print Assumptions C09_source_start_mb.
+
+Theorem C09_source_pref_total : forall pref_ch nch_db, g_pref_total pref_ch nch_db = pref_ch + nch_db.
+Proof. exact gen_pref_total. Qed.
+Print Assumptions C09_source_pref_total.
+
+Theorem C09_source_walk_matched : g_walk_matched = true.
+Proof. exact gen_walk_matched. Qed.
+Print Assumptions C09_source_walk_matched.
+
+Theorem C09_source_generators : forall p n, g_prev_link p n = link_ok p n /\ g_next_link p n = link_ok p n.
+Proof. exact gen_link. Qed.
+Print Assumptions C09_source_generators.
